@@ -6,10 +6,18 @@ From Quill Require Import Queue.BQDefs Backend.BEDefs Backend.BEExec Backend.BEI
 From Quill Require TieCtx.
 Import ListNotations.
 Local Open Scope N_scope.
+From Quill Require TieMBE.
 From Quill Require TieBE ExpectedBE.
 
 (* T-src: the BackendWorker methods this property's part of M-BE re-states are, statement by statement, the ones the model
    was written against and compared with (ExpectedBE.v; the whole loop is tied in Properties_C03.C03_tie_backend_loop) *)
+(* T-src: the two abstractions M-BE makes - a thread's queue is an atomic FIFO (C01 / C02), registration and cache refresh
+   are atomic steps (registration protocol of C03) - hold for the memory orders, statement orders and shapes found in the
+   source (TieMBE.v spells the facts out) *)
+Theorem C07_tie_MBE_abstractions : Quill.TieMBE.MBE_abstractions_hold.
+Proof. exact Quill.TieMBE.mbe_abstractions. Qed.
+Print Assumptions C07_tie_MBE_abstractions.
+
 Theorem C07_tie_backend_methods :
   QuillGen.SrcFacts.sk_be_check_frontend_queues_and_cached_transit_events_empty = Quill.ExpectedBE.sk_be_check_frontend_queues_and_cached_transit_events_empty /\
   QuillGen.SrcFacts.sk_be_populate_transit_events_from_frontend_queues = Quill.ExpectedBE.sk_be_populate_transit_events_from_frontend_queues /\
